@@ -274,7 +274,20 @@ func runConcurrent(t *verifsim.Tape, cfg engine.Config) *engine.Outcome {
 				if x.m.Result != nil {
 					got := gen.FromGo(d, reflect.ValueOf(x.res), x.m.Result.Type)
 					want := gen.Expected(d, x.result, x.m.Result)
-					if u := resultType(d, x.m); u != nil {
+					if u := resultType(d, x.m); u != nil && x.m.Collection {
+						// a collection: element by element
+						ea := &spec.Attr{Type: &spec.Type{Kind: spec.Object, Fields: u.Attr.Type.Fields}}
+						rs, _ := x.result.([]any)
+						gs, _ := got.([]any)
+						ws, gp := make([]any, len(rs)), make([]any, len(gs))
+						for i := range rs {
+							ws[i] = gen.Expected(d, gen.Project(d, rs[i], u, x.m.FixedView), ea)
+						}
+						for i := range gs {
+							gp[i] = gen.Project(d, gs[i], u, x.m.FixedView)
+						}
+						want, got = ws, gp
+					} else if u != nil {
 						want = gen.Expected(d, gen.Project(d, x.result, u, x.m.FixedView), &spec.Attr{Type: &spec.Type{Kind: spec.Object, Fields: u.Attr.Type.Fields}})
 						got = gen.Project(d, got, u, x.m.FixedView)
 					}
